@@ -14,6 +14,7 @@ package corr
 //                for every packet that reaches a bottom writer, in order.
 
 import (
+	"errors"
 	"fmt"
 	"sort"
 	"strings"
@@ -172,17 +173,35 @@ type c17Rec struct {
 	ents  []c17Ent // the same deliveries, structured (used by the concurrent-writer block)
 }
 
-func (r *c17Rec) writer(stream int) interceptor.RTPWriter {
+func (r *c17Rec) writer(stream int) interceptor.RTPWriter { return r.writerG(stream, 0, nil) }
+
+// writerG makes a NEW next-writer instance for a stream: gen identifies the instance (0 = first
+// bind, 1 = first re-bind …; printed as ` w=<gen>` when > 0), fail (optional) is asked at every
+// call whether this call returns an error.
+func (r *c17Rec) writerG(stream, gen int, fail func() bool) interceptor.RTPWriter {
 	return interceptor.RTPWriterFunc(func(h *rtp.Header, p []byte, _ interceptor.Attributes) (int, error) {
 		r.mu.Lock()
 		defer r.mu.Unlock()
+		failed := fail != nil && fail()
 		body := fmt.Sprintf("s=%d seq=%d h=%08x p=%08x", stream, h.SequenceNumber, c17HdrDigest(h), fnv(fnvInit, p...))
-		line := fmt.Sprintf("d t=%d %s", time.Since(r.start).Microseconds(), body)
+		if gen > 0 {
+			body += fmt.Sprintf(" w=%d", gen)
+		}
+		tag := "d"
+		if failed {
+			tag = "df"
+		}
+		line := fmt.Sprintf("%s t=%d %s", tag, time.Since(r.start).Microseconds(), body)
 		r.lines = append(r.lines, line)
 		r.ents = append(r.ents, c17Ent{stream: stream, seq: int(h.SequenceNumber), line: line, body: body})
+		if failed {
+			return 0, errC17Writer
+		}
 		return h.MarshalSize() + len(p), nil
 	})
 }
+
+var errC17Writer = errors.New("next writer failed")
 
 func (r *c17Rec) flush(o *Out) {
 	r.mu.Lock()
@@ -227,6 +246,7 @@ func runPacing(t *testing.T, ops []string, o *Out) {
 		var fac *pacing.InterceptorFactory
 		var ic interceptor.Interceptor
 		writers := map[int]interceptor.RTPWriter{}
+		binds := map[int]int{}
 		closed := false
 		type cwW struct {
 			sh c17Shape
@@ -372,7 +392,8 @@ func runPacing(t *testing.T, ops []string, o *Out) {
 					o.P("bad-op")
 					continue
 				}
-				writers[s] = ic.BindLocalStream(&interceptor.StreamInfo{SSRC: uint32(s)}, rec.writer(s))
+				writers[s] = ic.BindLocalStream(&interceptor.StreamInfo{SSRC: uint32(s)}, rec.writerG(s, binds[s], nil))
+				binds[s]++
 			case "w":
 				s, ok := c17NatOK(m, "s", 1000)
 				sh, ok2 := c17ParseShape(m)
@@ -441,6 +462,7 @@ func runLeaky(t *testing.T, ops []string, o *Out) {
 	synctest.Test(t, func(t *testing.T) {
 		rec := &c17Rec{start: time.Now()}
 		var p *gcc.LeakyBucketPacer
+		lbinds, lcalls, lfails := map[int]int{}, map[int]int{}, map[int]map[int]bool{}
 		closed := false
 		defer func() {
 			if p != nil && !closed {
@@ -464,7 +486,44 @@ func runLeaky(t *testing.T, ops []string, o *Out) {
 					o.P("bad-op")
 					continue
 				}
-				p.AddStream(uint32(s), rec.writer(s))
+				fl := []int{}
+				if v, have := m["fail"]; have {
+					okf := true
+					func() {
+						defer func() {
+							if recover() != nil {
+								okf = false
+							}
+						}()
+						fl = parseInts(v)
+					}()
+					if !okf || len(fl) > 64 {
+						o.P("bad-op")
+						continue
+					}
+					bad := false
+					for _, k := range fl {
+						if k < 0 || k > 100000 {
+							bad = true
+						}
+					}
+					if bad {
+						o.P("bad-op")
+						continue
+					}
+				}
+				// the failure schedule is per SSRC (calls counted across writer instances); a re-bind replaces it
+				set := map[int]bool{}
+				for _, k := range fl {
+					set[k] = true
+				}
+				lfails[s] = set
+				ss := s
+				p.AddStream(uint32(s), rec.writerG(s, lbinds[s], func() bool {
+					lcalls[ss]++
+					return lfails[ss][lcalls[ss]]
+				}))
+				lbinds[s]++
 			case "w":
 				sh, ok := c17ParseShape(m)
 				if !ok || p == nil {
@@ -579,8 +638,11 @@ func c17Rate(r *Rng) int {
 
 func genPacing(r *Rng, tier string, idx int) Case {
 	classes := []string{"steady", "burst", "ratechange", "multistream", "shapes", "lowrate", "highrate",
-		"oversize", "closed", "intervals", "edge", "concurrent"}
+		"oversize", "closed", "intervals", "edge", "concurrent", "rebind"}
 	cl := classes[idx%len(classes)]
+	if cl == "rebind" {
+		return genPacingRebind(r)
+	}
 	if cl == "concurrent" {
 		return genPacingConcurrent(r)
 	}
@@ -768,9 +830,114 @@ func genPacingConcurrent(r *Rng) Case {
 	return Case{Class: "concurrent", Ops: ops}
 }
 
+// genLeakyEnv: the environment of the leaky bucket misbehaves or changes.
+//
+//	wfail : the stream's next writer returns an error at drawn calls; afterwards bursts of several
+//	        packets are queued within one tick (distinct lengths and contents), so a buffer that was
+//	        handed back to the pool wrongly shows up as a packet delivered with another packet's bytes.
+//	rebind: the SAME ssrc is given a NEW writer mid-stream (AddStream again), mostly with no other
+//	        stream's packet in between; every delivery line names the writer instance (` w=<gen>`).
+func genLeakyEnv(r *Rng, cl string) Case {
+	rate := r.Pick(500_000, 1_000_000, 2_000_000, 8_000_000, 50_000_000, r.Range(300_000, 20_000_000))
+	ops := []string{fmt.Sprintf("new rate=%d", rate)}
+	ns := r.Pick(1, 1, 1, 2)
+	ssrcs := make([]int, ns)
+	seq := make([]int, ns)
+	failList := func() string {
+		var fl []int
+		for k := 1; k <= 12; k++ {
+			if r.Chance(1, 4) {
+				fl = append(fl, k)
+			}
+		}
+		return joinInts(fl)
+	}
+	bind := func(s int) {
+		op := fmt.Sprintf("bind s=%d", ssrcs[s])
+		if cl == "wfail" || r.Chance(1, 4) {
+			op += " fail=" + failList()
+		}
+		ops = append(ops, op)
+	}
+	for s := range ssrcs {
+		ssrcs[s] = r.Pick(s+1, 0xFFFFFFF0+s, r.Intn(1<<32))
+		seq[s] = r.Pick(0, 65530, r.Intn(65536))
+		bind(s)
+	}
+	write := func(s int, nw bool) {
+		cc, xp, xl, pl := c17GenShape(r, cl)
+		if r.Chance(1, 2) {
+			pl = r.Range(1, 1460) // distinct lengths within a burst
+		}
+		ops = append(ops, c17WriteOp(0, false, ssrcs[s], seq[s], cc, xp, xl, pl, nw))
+		seq[s]++
+	}
+	adv := func() {
+		k := r.Pick(1, 1, 2, 3, 10)
+		ops = append(ops, fmt.Sprintf("adv us=%d", k*5000+r.Pick(0, 0, 1, 2500)))
+	}
+	cur := 0
+	for i, n := 0, r.Range(6, 30); i < n; i++ {
+		if cl == "rebind" && r.Chance(1, 4) {
+			bind(cur) // same ssrc, new writer, nothing of another stream in between
+		}
+		if ns > 1 && r.Chance(1, 6) {
+			cur = r.Intn(ns)
+		}
+		for j, m := 0, r.Pick(1, 2, 3, 4, 6); j < m; j++ {
+			write(cur, r.Chance(1, 2))
+		}
+		if r.Chance(4, 5) {
+			adv()
+		}
+	}
+	ops = append(ops, "adv us=1000000")
+	return Case{Class: cl, Ops: ops}
+}
+
+// genPacingRebind: BindLocalStream again for the same stream mid-stream: packets written through the
+// old handle (even if still queued) belong to the old next-writer, later ones to the new one.
+func genPacingRebind(r *Rng) Case {
+	rate := r.Pick(100_000, 500_000, 1_000_000, 10_000_000, r.Range(100_000, 20_000_000))
+	ivl := r.Pick(5000, 5000, 10_000, 2500)
+	ops := []string{fmt.Sprintf("new rate=%d ivl=%d", rate, ivl)}
+	ns := r.Pick(1, 1, 2)
+	seq := make([]int, ns)
+	for s := 0; s < ns; s++ {
+		ops = append(ops, fmt.Sprintf("bind s=%d", s))
+		seq[s] = r.Pick(0, 65530, r.Intn(65536))
+	}
+	cur := 0
+	for i, n := 0, r.Range(5, 25); i < n; i++ {
+		if r.Chance(1, 4) {
+			ops = append(ops, fmt.Sprintf("bind s=%d", cur))
+		}
+		if ns > 1 && r.Chance(1, 5) {
+			cur = r.Intn(ns)
+		}
+		for j, m := 0, r.Pick(1, 2, 3, 5); j < m; j++ {
+			cc, xp, xl, pl := c17GenShape(r, "rebind")
+			if pl > 1300 {
+				pl = 1300
+			}
+			ops = append(ops, c17WriteOp(cur, true, 1000+cur, seq[cur], cc, xp, xl, pl, r.Chance(1, 3)))
+			seq[cur]++
+		}
+		if r.Chance(3, 4) {
+			ops = append(ops, fmt.Sprintf("adv us=%d", r.Pick(1, 1, 2, 5, 20)*ivl+r.Pick(0, 1, ivl/2)))
+		}
+	}
+	ops = append(ops, fmt.Sprintf("adv us=%d", 400*ivl))
+	return Case{Class: "rebind", Ops: ops}
+}
+
 func genLeaky(r *Rng, tier string, idx int) Case {
-	classes := []string{"steady", "burst", "idle", "unknown", "latebind", "oversize", "ratechange", "zero", "closed", "shapes"}
+	classes := []string{"steady", "burst", "idle", "unknown", "latebind", "oversize", "ratechange", "zero", "closed", "shapes",
+		"wfail", "rebind"}
 	cl := classes[idx%len(classes)]
+	if cl == "wfail" || cl == "rebind" {
+		return genLeakyEnv(r, cl)
+	}
 	rate := c17Rate(r)
 	if cl == "zero" {
 		rate = 0
